@@ -212,6 +212,7 @@ class Cluster:
         import re as _re
 
         noheader, fmt = False, "%.18i %.9P %.8j %.8u %.2t %.10M %.6D %R"
+        show_hidden = False  # squeue(1): jobs in hidden partitions are listed only with --all
         i = 0
         while i < len(args):
             a = args[i]
@@ -223,10 +224,17 @@ class Cluster:
             elif a.startswith("--format="):
                 fmt = a.split("=", 1)[1]
             elif a in ("--all", "-a"):
+                show_hidden = True
+            elif a == "--me":
+                pass  # every simulated gwf job belongs to the invoking user; the foreign ones do not
+            elif a in ("--user", "-u"):
+                i += 1
+            elif a.startswith("--user="):
                 pass
             else:
                 return 1, "", f"squeue: unrecognized option '{a}'\n"
             i += 1
+        only_mine = any(a == "--me" or a in ("--user", "-u") or a.startswith("--user=") for a in args)
         head = {"i": "JOBID", "t": "ST", "T": "STATE", "j": "NAME", "P": "PARTITION", "u": "USER", "M": "TIME",
                 "D": "NODES", "R": "NODELIST(REASON)"}
 
@@ -246,7 +254,9 @@ class Cluster:
             out.append(render(head))
         for jid in self.order:
             j = self.jobs[jid]
-            if j.live:
+            part = next((d.split("=", 1)[1] if d.startswith("--partition=") else d[3:].strip()
+                         for d in j.directives.get("_raw", []) if d.startswith("--partition=") or d.startswith("-p ")), "normal")
+            if j.live and (show_hidden or part != "hidden") and not (only_mine and j.foreign):
                 out.append(render({"i": j.id, "t": j.code or "", "T": SLURM_LONG.get(j.code, j.code or ""),
                                    "j": j.name or "", "P": "normal", "u": "user", "M": "0:00", "D": "1", "R": "(None)"}))
         return 0, "".join(ln + "\n" for ln in out), ""
